@@ -162,4 +162,14 @@ func init() {
 	})
 }
 
+func init() {
+	regExtern("github.com/free5gc/chf/cdr/cdrFile.verif_bufLen", "specification primitive: number of bytes written to the buffer", func(ex *Exec, fr *Frame, st *State, pc *Term, fn *ssa.Function, args []Value, pos token.Pos) (Value, *Term) {
+		return VBV{Select(st.comp(compBufLen, bufLenS), args[0].(VPtr).T)}, pc
+	})
+	regExtern("github.com/free5gc/chf/cdr/cdrFile.verif_bufByte", "specification primitive: k-th byte written to the buffer", func(ex *Exec, fr *Frame, st *State, pc *Term, fn *ssa.Function, args []Value, pos token.Pos) (Value, *Term) {
+		row := Select(st.comp(compBufRow, bufRowS), args[0].(VPtr).T)
+		return VBV{Select(row, args[1].(VBV).T)}, pc
+	})
+}
+
 var _ = fmt.Sprintf
